@@ -982,3 +982,164 @@ Proof.
     rewrite E2. split; [reflexivity|]. intros j. unfold s2. rewrite !get_set.
     destruct (Nat.eqb_spec j i); [|reflexivity]. rewrite Nat.eqb_refl. reflexivity.
 Qed.
+
+(* ------------------------------------------------------------------ the statements *)
+Lemma run_app ops1 ops2 : run (ops1 ++ ops2) = fold_left step ops2 (run ops1).
+Proof. unfold run. apply fold_left_app. Qed.
+
+Theorem dtor_at_most_once ops i : calls (get (run ops) i) <= 1.
+Proof.
+  pose proof (i_gcp _ (run_inv ops) i) as G. unfold gcp_good in G.
+  destruct (k (get (run ops) i)) as [| | ? [?|] | | ? [|] | |]; intuition lia.
+Qed.
+
+Theorem dtor_exactly_once ops i :
+  is_gcp (get (run ops) i) = true -> had (get (run ops) i) = true ->
+  cancelled (get (run ops) i) = false ->
+  released (get (run ops) i) = true \/ alive (get (run ops) i) = false ->
+  calls (get (run ops) i) = 1.
+Proof.
+  pose proof (i_gcp _ (run_inv ops) i) as G. unfold gcp_good, is_gcp in *.
+  destruct (k (get (run ops) i)) as [| | ? [?|] | | ? [|] | |]; try discriminate; intros _ Hh Hc Hr.
+  - destruct G as (_ & _ & _ & R & A & _). destruct Hr; congruence.
+  - destruct G as ([G | [G | G]] & _); intuition congruence.
+Qed.
+
+Theorem dtor_not_early ops i :
+  alive (get (run ops) i) = true -> released (get (run ops) i) = false ->
+  calls (get (run ops) i) = 0.
+Proof.
+  pose proof (i_gcp _ (run_inv ops) i) as G. unfold gcp_good in *.
+  destruct (k (get (run ops) i)) as [| | ? [?|] | | ? [|] | |]; intros A R; try tauto.
+  destruct G as ([G | [G | G]] & _); intuition congruence.
+Qed.
+
+Lemma cancelled_lt s i : Inv s -> cancelled (get s i) = true -> i < next s.
+Proof.
+  intros H C. destruct (Nat.lt_ge_cases i (next s)) as [L | L]; [exact L|].
+  rewrite (i_fresh s H i L) in C. discriminate.
+Qed.
+
+Theorem never_after_cancel ops1 ops2 i :
+  cancelled (get (run ops1) i) = true -> calls (get (run (ops1 ++ ops2)) i) = 0.
+Proof.
+  intros C. pose proof (cancelled_lt _ i (run_inv ops1) C) as L.
+  destruct (run_mono ops2 (run ops1) i L) as (M & _). rewrite <- run_app in M. specialize (M C).
+  pose proof (i_gcp _ (run_inv (ops1 ++ ops2)) i) as G. unfold gcp_good in G.
+  destruct (k (get (run (ops1 ++ ops2)) i)) as [| | ? [?|] | | ? [|] | |]; try (intuition congruence); try (destruct G as ([G | [G | G]] & _); intuition congruence).
+Qed.
+
+Theorem called_once_stays ops1 ops2 i :
+  calls (get (run ops1) i) = 1 -> calls (get (run (ops1 ++ ops2)) i) = 1.
+Proof.
+  intros C.
+  assert (L : i < next (run ops1)).
+  { destruct (Nat.lt_ge_cases i (next (run ops1))) as [L | L]; [exact L|].
+    rewrite (i_fresh _ (run_inv ops1) i L) in C. discriminate. }
+  destruct (run_mono ops2 (run ops1) i L) as (_ & M & _). rewrite <- run_app in M.
+  pose proof (dtor_at_most_once (ops1 ++ ops2) i). lia.
+Qed.
+
+(* release of the pointer returned by new_allocator()("struct *") frees the allocation *)
+Theorem release_struct_ptr_frees ops p st :
+  let s := run ops in
+  usable s p = true -> k (get s p) = KStructPtr st -> is_gcp (get s st) = true ->
+  had (get s st) = true -> cancelled (get s st) = false ->
+  calls (get (step s (ORelease p)) st) = 1.
+Proof.
+  intros s U K G Hh Hc.
+  assert (E : step s (ORelease p) = finalize_at s st) by (cbn [step]; rewrite U, K, G; reflexivity).
+  assert (R : run (ops ++ [ORelease p]) = finalize_at s st).
+  { rewrite run_app. cbn [fold_left]. exact E. }
+  rewrite E, <- R. apply dtor_exactly_once; rewrite R; unfold finalize_at; rewrite get_set, Nat.eqb_refl.
+  - unfold is_gcp, run_dtor in *. destruct (k (get s st)) as [| | ? [?|] | | | |]; try discriminate; reflexivity.
+  - unfold run_dtor. destruct (k (get s st)) as [| | ? [?|] | | | |]; exact Hh.
+  - unfold run_dtor. destruct (k (get s st)) as [| | ? [?|] | | | |]; exact Hc.
+  - left. reflexivity.
+Qed.
+
+Theorem frombuf_locks_source ops f src :
+  let s := run ops in
+  k (get s f) = KFromBuf src true ->
+  alive (get s f) = true /\ released (get s f) = false /\
+  alive (get s src) = true /\ resize_blocked (get s src) = true.
+Proof.
+  intros s K. pose proof (run_inv ops) as H. fold s in H.
+  destruct (i_view s H f src K) as (A & refs & ex & K2 & I).
+  split; [exact A|]. split.
+  - pose proof (i_gcp s H f) as G. unfold gcp_good in G. rewrite K in G. tauto.
+  - split.
+    + apply (i_refs s H f). unfold refs_of. rewrite A, K. left. reflexivity.
+    + unfold resize_blocked. rewrite K2. destruct ex; [destruct I | reflexivity].
+Qed.
+
+Theorem source_unlocked_when_no_view ops src :
+  let s := run ops in
+  resize_blocked (get s src) = true ->
+  exists f, k (get s f) = KFromBuf src true /\ alive (get s f) = true /\ released (get s f) = false.
+Proof.
+  intros s B. pose proof (run_inv ops) as H. fold s in H. unfold resize_blocked in B.
+  destruct (k (get s src)) as [| | | | | | refs [| f ex]] eqn:K; try discriminate.
+  exists f. pose proof (i_exp s H src refs (f :: ex) f K (or_introl eq_refl)) as KF.
+  destruct (frombuf_locks_source ops f src KF) as (A & R & _). auto.
+Qed.
+
+Theorem struct_memory_kept ops p st :
+  let s := run ops in
+  k (get s p) = KStructPtr st ->
+  (alive (get s p) = true \/ 0 < roots (get s st)) ->
+  alive (get s st) = true /\
+  (is_gcp (get s st) = true -> released (get s st) = false ->
+     calls (get s st) = 0 /\
+     exists raw d, k (get s st) = KGcp (Some raw) d /\ alive (get s raw) = true).
+Proof.
+  intros s K L. pose proof (run_inv ops) as H. fold s in H.
+  assert (A : alive (get s st) = true).
+  { destruct L as [A | R]; [|apply (i_roots s H); exact R].
+    apply (i_refs s H p). unfold refs_of. rewrite A, K. left. reflexivity. }
+  split; [exact A|]. intros G R. split; [apply dtor_not_early; assumption|].
+  pose proof (i_gcp s H st) as Gd. unfold gcp_good, is_gcp in *.
+  destruct (k (get s st)) as [| | orig [y|] | | | |] eqn:Ks; try discriminate.
+  - destruct Gd as (_ & _ & _ & _ & _ & O). destruct orig as [raw|]; [|congruence].
+    exists raw, (Some y). split; [reflexivity|]. apply (i_refs s H st). unfold refs_of. rewrite A, Ks.
+    left. reflexivity.
+  - destruct Gd as (_ & [O | [O | O]]); try congruence. destruct orig as [raw|]; [|congruence].
+    exists raw, None. split; [reflexivity|]. apply (i_refs s H st). unfold refs_of. rewrite A, Ks.
+    left. reflexivity.
+Qed.
+
+Theorem from_handle_correct ops h x :
+  let s := run ops in
+  alive (get s h) = true -> k (get s h) = KHandle x ->
+  horig (get s h) = Some x /\ alive (get s x) = true /\ from_handle_addr s (addr (get s h)) = Some x.
+Proof.
+  intros s A K. pose proof (run_inv ops) as H. fold s in H.
+  split; [apply (i_handle s H); exact K|]. split.
+  - apply (i_refs s H h). unfold refs_of. rewrite A, K. left. reflexivity.
+  - unfold from_handle_addr.
+    set (P := fun i => alive (get s i) && (addr (get s i) =? addr (get s h))).
+    assert (Ih : In h (filter P (ids s))).
+    { apply filter_In. split; [apply in_seq; pose proof (alive_lt s h H A); lia|].
+      unfold P. rewrite A, Nat.eqb_refl. reflexivity. }
+    destruct (filter P (ids s)) as [| i l] eqn:F; [destruct Ih|].
+    assert (Ii : In i (filter P (ids s))) by (rewrite F; left; reflexivity).
+    apply filter_In in Ii. destruct Ii as (_ & Pi). unfold P in Pi.
+    rewrite andb_true_iff, Nat.eqb_eq in Pi. destruct Pi as (Ai & Ei).
+    rewrite (i_addr s H i h Ai A Ei), K. reflexivity.
+Qed.
+
+Theorem live_objects_distinct_addresses ops i j :
+  let s := run ops in
+  alive (get s i) = true -> alive (get s j) = true -> i <> j -> addr (get s i) <> addr (get s j).
+Proof. intros s A B N E. apply N. eapply (i_addr s (run_inv ops)); eassumption. Qed.
+
+(* nothing dangles: whatever a live object refers to is alive *)
+Theorem references_alive ops i r :
+  In r (refs_of (get (run ops) i)) -> alive (get (run ops) r) = true.
+Proof. apply (i_refs _ (run_inv ops)). Qed.
+
+Theorem release_idempotent_run ops i :
+  let s := run ops in
+  next (step (step s (ORelease i)) (ORelease i)) = next (step s (ORelease i)) /\
+  forall j, get (step (step s (ORelease i)) (ORelease i)) j = get (step s (ORelease i)) j.
+Proof. intros s. apply release_idempotent, run_inv. Qed.
